@@ -31,6 +31,7 @@ func (g *Gen) genProtoHistory() {
 	var mb, sb []byte
 	okp, _ := guard(func() { mb, sb, _ = protoBytes(e.sk()) })
 	if !okp {
+		sg.line("xpanic 1 proto")
 		return
 	}
 	sg.ensureValues(1)
